@@ -106,6 +106,7 @@ def run_generic(module_names, qname, obligation, model):
         result = func(*pos, **kw)
         if isinstance(result, types.GeneratorType):
             result = list(result)
+            env['yielded'] = result          # generator functions: the ghost sequence of the contract clauses
         outcome = ('return', result)
         print('returned  :', show(result))
     except Exception as e:
